@@ -55,7 +55,15 @@ var Locs = []string{
 	"global", "math.attr", "math.new", "sys.path.append", "sys.path.rebind", "sys.argv.inplace", "sys.argv.rebind",
 	"builtins.new", "builtins.len", "srcmod.val", "srcmod.list", "srcmod.dict", "class.attr", "func.default",
 	"type.int", "type.list", "type.exc", "os.environ", "string.attr", "time.attr", "sys.new", "print.capture", "nested.cfg",
-	"const.bytes", "exc.syntax", "modimpl.conf", "exc.eof", "print.fault", "type.subclasses",
+	"const.bytes", "exc.syntax", "modimpl.conf", "exc.eof", "print.fault", "type.subclasses", "regsrc.val",
+}
+
+// RegisterScenarioModules gives every scenario a freshly registered source
+// module (process-wide registry, py.RegisterModule): whatever the registry's
+// ModuleImpl initialises lazily at the first import happens while this
+// scenario's contexts import it - possibly at the same time.
+func RegisterScenarioModules() {
+	py.RegisterModule(&py.ModuleImpl{Info: py.ModuleInfo{Name: "regsrc", FileDesc: "<regsrc>"}, CodeSrc: "val = \"rs\"\nlst = []\n"})
 }
 
 var eofSources = []string{"x = (\n", "if x:\n", "def f(a,\n", "s = \"\"\"abc\n", "v = [1,\n  2,\n", "class C:\n"}
@@ -136,6 +144,9 @@ func writeStmt(loc string, v int) string {
 		// print; what was being printed must not surface anywhere else, and the
 		// next print (to a healthy stream) prints exactly its own text
 		return fmt.Sprintf("import sys\nsys.stdout = _Bad(%d)\ntry:\n    print(\"lost\" + CT, %s, \"tail\")\nexcept ValueError:\n    pass\nsys.stdout = _Cap()\nprint(%s)", v%3, val, val)
+	case "regsrc.val":
+		// a source module registered process-wide by the embedder: each context gets its own instance
+		return "import regsrc\nregsrc.val = " + val + "\nregsrc.lst.append(" + val + ")"
 	case "type.subclasses":
 		// a class created at run time belongs to the context that created it
 		return "class ZZsub:\n    owner = CT\n    mark = " + val
@@ -189,6 +200,8 @@ func readExpr(loc string) (prelude, expr string) {
 		return "import sys", "_captured(sys.stdout)"
 	case "type.subclasses":
 		return "", "_foreign_subclasses()"
+	case "regsrc.val":
+		return "import regsrc", "(regsrc.val, list(regsrc.lst))"
 	case "os.environ":
 		return "import os", "os.environ.get(\"ZZ_SIM\", \"unset\")"
 	case "string.attr":
@@ -651,6 +664,7 @@ func (Engine) Exec(sci interface{}, opt harness.ExecOpts) *harness.Outcome {
 		}
 		shared = c
 	}
+	RegisterScenarioModules()
 	before := fingerprint()
 
 	// solo runs: each program alone, one after the other, in its own simulation
